@@ -338,6 +338,9 @@ func DoWith(h http.Handler, rq *Req, o DoOpts) *Resp {
 	rec := &recorder{hdr: http.Header{}, method: rq.Method, wgate: o.WGate}
 	resp := &Resp{}
 	run := func() {
+		// a fault at an unexpected address (e.g. a slice into an unmapped bolt page) is
+		// fatal to the process by default; make it an ordinary, recoverable panic here
+		defer debug.SetPanicOnFault(debug.SetPanicOnFault(true))
 		defer func() {
 			if p := recover(); p != nil {
 				resp.Panic = fmt.Sprint(p)
